@@ -504,6 +504,10 @@ class DocumentMapper:
 
         # 3. Strip markdown from target and try matching (ADDED)
         stripped_target = self._strip_markdown_formatting(target_text)
+        if not stripped_target:
+            # A target made of Markdown markers only ("# ", "## ") leaves nothing to look for; an empty string would
+            # "match" at offset 0 and turn the edit into an insertion at the start of the document.
+            return -1, 0
 
         # We can't use index from stripped_full directly on full_text,
         # but if it matches, it suggests we should try a fuzzy approach or fallback
